@@ -970,6 +970,92 @@ Proof.
   - destruct t as [|[|t]], t' as [|[|t']]; try lia; cbn; intros E; try reflexivity; discriminate.
 Qed.
 
+(* ---- transpose_multiply (sp_tmul): the gather loop, standard model and primitive floats ----
+   [col_entries s j] lists the (column, storage index) pairs of column j in storage order; every stored value of
+   column j is perturbed relatively by at most gam c_j, c_j = the number of entries stored in column j. *)
+From OV Require Import Proofs.RoundSparseT.
+
+Theorem sp_tmul_backward_error : forall (u : R), (0 <= u < 1)%R ->
+  forall (fadd fsub fmul fdiv : R -> R -> R),
+  (forall x y : R, exists d : R, (Rabs d <= u)%R /\ fadd x y = ((x + y) * (1 + d))%R) ->
+  (forall x y : R, exists d : R, (Rabs d <= u)%R /\ fmul x y = (x * y * (1 + d))%R) ->
+  (forall a b : R, fadd 0%R (fmul a b) = fmul a b) ->
+  forall (s : sparse (ARm fadd fsub fmul fdiv)) (x y : list R),
+  wfS s -> sp_tmul s x = Ok y ->
+  length y = sp_cols s /\
+  forall j, (j < sp_cols s)%nat -> (INR (length (col_entries s j)) * u < 1)%R ->
+    exists th : nat -> R,
+      (forall t, (t < length (col_entries s j))%nat -> (Rabs (th t) <= gam u (length (col_entries s j)))%R) /\
+      nth j y 0%R = Rsum (length (col_entries s j))
+                      (fun t => (ce_val s j t * (1 + th t) * nth (ce_row s j t) x 0)%R).
+Proof. intros u Hu fadd fsub fmul fdiv Ha Hm H0 s x y. exact (sp_tmul_backward_error_lemma u Hu fadd fsub fmul fdiv Ha Hm H0 s x y). Qed.
+Check sp_tmul_backward_error : forall (u : R), (0 <= u < 1)%R ->
+  forall (fadd fsub fmul fdiv : R -> R -> R),
+  (forall x y : R, exists d : R, (Rabs d <= u)%R /\ fadd x y = ((x + y) * (1 + d))%R) ->
+  (forall x y : R, exists d : R, (Rabs d <= u)%R /\ fmul x y = (x * y * (1 + d))%R) ->
+  (forall a b : R, fadd 0%R (fmul a b) = fmul a b) ->
+  forall (s : sparse (ARm fadd fsub fmul fdiv)) (x y : list R),
+  wfS s -> sp_tmul s x = Ok y ->
+  length y = sp_cols s /\
+  forall j, (j < sp_cols s)%nat -> (INR (length (col_entries s j)) * u < 1)%R ->
+    exists th : nat -> R,
+      (forall t, (t < length (col_entries s j))%nat -> (Rabs (th t) <= gam u (length (col_entries s j)))%R) /\
+      nth j y 0%R = Rsum (length (col_entries s j))
+                      (fun t => (ce_val s j t * (1 + th t) * nth (ce_row s j t) x 0)%R).
+Print Assumptions sp_tmul_backward_error.
+Example sp_tmul_backward_error_nonvacuous :   (* the matrix of sp_mul_backward_error_nonvacuous, transposed product with [5,6] *)
+  (0 <= ux < 1)%R /\ wfS ex_sp /\ (exists y, sp_tmul ex_sp [5%R; 6%R] = Ok y) /\
+  (forall j, (j < sp_cols ex_sp)%nat -> (INR (length (col_entries ex_sp j)) * ux < 1)%R) /\
+  length (col_entries ex_sp 0) = 2%nat.
+Proof.
+  split; [exact ux_range|]. split; [exact ex_sp_wf|]. split; [eexists; reflexivity|]. split; [|reflexivity].
+  intros [|[|j]] Hj; cbn in Hj; try lia; cbn; pose proof ux_small; lra.
+Qed.
+
+Theorem sp_tmul_backward_error_float : forall (s : sparse AF) (x y : list PrimFloat.float),
+  wfS s -> sp_tmul (A := AF) s x = Ok y ->
+  length y = sp_cols s /\
+  forall j, (j < sp_cols s)%nat -> ffinite (nth j y 0%float) ->
+    (forall t, (t < length (col_entries s j))%nat ->
+       no_underflow (FR (ce_val s j t) * FR (nth (ce_row s j t) x 0%float))%R) ->
+    (INR (length (col_entries s j)) * u64 < 1)%R ->
+    exists th : nat -> R,
+      (forall t, (t < length (col_entries s j))%nat -> (Rabs (th t) <= g64 (length (col_entries s j)))%R) /\
+      FR (nth j y 0%float) = Rsum (length (col_entries s j))
+                               (fun t => (FR (ce_val s j t) * (1 + th t) * FR (nth (ce_row s j t) x 0%float))%R).
+Proof. exact sp_tmul_backward_error_float_lemma. Qed.
+Check sp_tmul_backward_error_float : forall (s : sparse AF) (x y : list PrimFloat.float),
+  wfS s -> sp_tmul (A := AF) s x = Ok y ->
+  length y = sp_cols s /\
+  forall j, (j < sp_cols s)%nat -> ffinite (nth j y 0%float) ->
+    (forall t, (t < length (col_entries s j))%nat ->
+       no_underflow (FR (ce_val s j t) * FR (nth (ce_row s j t) x 0%float))%R) ->
+    (INR (length (col_entries s j)) * u64 < 1)%R ->
+    exists th : nat -> R,
+      (forall t, (t < length (col_entries s j))%nat -> (Rabs (th t) <= g64 (length (col_entries s j)))%R) /\
+      FR (nth j y 0%float) = Rsum (length (col_entries s j))
+                               (fun t => (FR (ce_val s j t) * (1 + th t) * FR (nth (ce_row s j t) x 0%float))%R).
+Print Assumptions sp_tmul_backward_error_float.
+Example sp_tmul_backward_error_float_nonvacuous :   (* column 0 of [[1.5,0],[2,3]] gathers two products *)
+  let s := @mkS AF 2 2 3 [1.5%float; 2%float; 3%float] [0%nat; 1%nat; 1%nat] [0%nat; 2%nat; 3%nat] in
+  let x := [3%float; 4%float] in
+  wfS s /\ exists y, sp_tmul (A := AF) s x = Ok y /\ ffinite (nth 0 y 0%float) /\
+    (forall t, (t < length (col_entries s 0))%nat ->
+       no_underflow (FR (ce_val s 0 t) * FR (nth (ce_row s 0 t) x 0%float))%R) /\
+    (INR (length (col_entries s 0)) * u64 < 1)%R /\ length (col_entries s 0) = 2%nat.
+Proof.
+  cbn zeta. split.
+  { unfold wfS; cbn. repeat split; try reflexivity.
+    - intros [|[|j]] Hj; cbn; lia.
+    - intros [|[|[|k]]] Hk; cbn; lia. }
+  eexists. split; [vm_compute; reflexivity|]. split; [apply ffinite_SF; reflexivity|].
+  assert (E15 : FR 1.5%float = 1.5%R) by fr_eval. assert (E2 : FR 2%float = 2%R) by fr_eval.
+  assert (E3 : FR 3%float = 3%R) by fr_eval. assert (E4 : FR 4%float = 4%R) by fr_eval.
+  split; [|split; [cbn; pose proof u64_small; lra|reflexivity]].
+  intros [|[|t]] Ht; cbn in Ht; try lia; unfold ce_val, ce_row; cbn -[FR]; rewrite ?E15, ?E2, ?E3, ?E4;
+    apply no_underflow_ge1; rewrite Rabs_pos_eq; lra.
+Qed.
+
 (* ---------- Props/pending/C11_round.v.txt ---------- *)
 (* ======================================================================================================
    C11 (polynomial ring and calculus laws), rounding half -- package round.  Append to Props/C11.v.
